@@ -1,6 +1,6 @@
 (* C05 — Units run in order; the first error aborts the message and is reported once
    Statements only: each theorem is closed by `exact` of a lemma proved in the *_proofs.v files. *)
-From VF Require Import Base Gen_Errors Lexer Response Tree Tree_proofs.
+From VF Require Import Base Gen_Errors Lexer Grammar Response Tree Tree_proofs HeaderSpec MessageSpec Message_proofs.
 Open Scope N_scope.
 
 Section C05_statements.
@@ -32,6 +32,35 @@ Theorem C05_leftover_is_108 : forall fu (root leaf : tree D) s leaf' s' tok rest
   unit_loop (S fu) root leaf s = Val (with_toks s' rest, Some (std_error ParameterNotAllowed)).
 Proof. apply leftover_is_108. Qed.
 
+Theorem C05_message_semantics : forall (root : tree D) (m : msg) (d : D) (f : fmt),
+  wf_tree root -> wf_msg m = true ->
+  run root (render_msg m) d f = Val (spec_message root m d f).
+Proof. apply message_semantics. Qed.
+
+Theorem C05_message_semantics_tokens : forall (root : tree D) (m : msg) (d : D) (f : fmt),
+  wf_tree root -> wf_msg m = true ->
+  exists s e, run_tokens root (map IOk (tokens_of m)) d f = Val (s, e) /\
+    (x_dev s, x_fmt s, x_trace s, e) = spec_units root root (m_units m) d f [].
+Proof. apply message_semantics_tokens. Qed.
+
+Theorem C05_layout_independent : forall (root : tree D) m1 m2 d f, wf_tree root -> wf_msg m1 = true -> wf_msg m2 = true ->
+  map (fun uw => (u_header (fst uw), unit_data (fst uw))) (m_units m1)
+    = map (fun uw => (u_header (fst uw), unit_data (fst uw))) (m_units m2) ->
+  run root (render_msg m1) d f = run root (render_msg m2) d f.
+Proof. apply layout_independent. Qed.
+
+Theorem C05_spec_units_ok_trace : forall (root ctx : tree D) us d f tr d' f' tr',
+  spec_units root ctx us d f tr = (d', f', tr', None) -> length tr' = (length tr + length us)%nat.
+Proof. apply spec_units_ok_trace. Qed.
+
+Theorem C05_spec_units_err_trace : forall (root ctx : tree D) us d f tr d' f' tr' e,
+  spec_units root ctx us d f tr = (d', f', tr', Some e) -> (length tr' <= length tr + length us)%nat.
+Proof. apply spec_units_err_trace. Qed.
+
+Theorem C05_spec_units_trace_extends : forall (root ctx : tree D) us d f tr d' f' tr' e,
+  spec_units root ctx us d f tr = (d', f', tr', e) -> exists added, tr' = tr ++ added.
+Proof. apply spec_units_trace_extends. Qed.
+
 End C05_statements.
 
 Print Assumptions C05_hook_exactly_once.
@@ -40,3 +69,9 @@ Print Assumptions C05_first_error_aborts.
 Print Assumptions C05_stream_error_aborts.
 Print Assumptions C05_trace_bounded_by_units.
 Print Assumptions C05_leftover_is_108.
+Print Assumptions C05_message_semantics.
+Print Assumptions C05_message_semantics_tokens.
+Print Assumptions C05_layout_independent.
+Print Assumptions C05_spec_units_ok_trace.
+Print Assumptions C05_spec_units_err_trace.
+Print Assumptions C05_spec_units_trace_extends.
